@@ -14,7 +14,7 @@ import time
 from dv import core
 from dv.core import cz, cnat, cbool, clist, copt, cpair
 
-HEADER = ("From DV Require Import Model.PyPrims Model.C11Model.\n"
+HEADER = ("From DV Require Import Model.PyPrims Model.C11Model Model.C11W7Model.\n"
           "From Coq Require Import ZArith.\nOpen Scope nat_scope.")
 
 POOLS = [
@@ -80,6 +80,8 @@ class World:
         self.pool = pool
         self.base = len(_CREATED)
         self.nss, self.trees, self.lists, self.mats, self.dss = [], [], [], [], []
+        self.memos = []     # caller-owned taxon_mapping_memo dictionaries (wave 7)
+        self._keep = []     # every storage object ever observed stays alive: id() is never re-used in a history
         self._ix = {"ns": {}, "tree": {}, "list": {}, "mat": {}, "ds": {}}
         self.removed = []   # (tree, namespace object of the list at removal time)
 
@@ -154,7 +156,19 @@ class World:
                      [nsid(n) for n in ds.taxon_namespaces],
                      [self._ix["list"][id(tl)] for tl in ds.tree_lists],
                      [self._ix["mat"][id(m)] for m in ds.char_matrices]] for ds in self.dss],
+            "memos": [[[self.tid(k), self.tid(v)] for k, v in mm.items()] for mm in self.memos],
+            "mmap": self._classes([m._taxon_sequence_map for m in self.mats]),
+            "ltl": self._classes([tl._trees for tl in self.lists]),
         }
+
+    def _classes(self, objs):
+        """identity classes of mutable storage objects: for each container the smallest index of a container
+        that holds the very same storage object (0, 1, 2, ... when nothing is shared)"""
+        first, out = {}, []
+        for i, o in enumerate(objs):
+            self._keep.append(o)
+            out.append(first.setdefault(id(o), i))
+        return out
 
     # -- the property, stated naively on the live objects ------------------------------------
     def naive(self):
@@ -404,6 +418,44 @@ class World:
             dss[op[1]].unify_taxon_namespaces(taxon_namespace=None if op[2] is None else nss[op[2]],
                                               attach_taxon_namespace=op[3])
             return ["OUnit"]
+        if name == "FreeTaxon":
+            return ["OId", self.tid(dp.Taxon(label=self.pool[op[1]]))]
+        if name == "NewMemo":
+            tx = self.taxa()
+            self.memos.append(dict((tx[a], tx[b]) for a, b in op[1]))
+            return ["OId", len(self.memos) - 1]
+        if name == "CopyMat":
+            import copy
+            m = mats[op[1]]
+            return ["OId", self.reg_mat(m.clone(0) if op[2] == "clone" else copy.copy(m))]
+        if name == "CopyList":
+            import copy
+            tl = lists[op[1]]
+            return ["OId", self.reg_list(tl.clone(0) if op[2] == "clone" else copy.copy(tl))]
+        if name == "AppendM":
+            lists[op[1]].append(trees[op[2]], taxon_mapping_memo=self.memos[op[4]], **self._strat_kw(op[3]))
+            return ["OUnit"]
+        if name == "InsertM":
+            lists[op[1]].insert(op[2], trees[op[3]], taxon_mapping_memo=self.memos[op[5]], **self._strat_kw(op[4]))
+            return ["OUnit"]
+        if name == "MigrateTreeM":
+            trees[op[1]].migrate_taxon_namespace(nss[op[2]], unify_taxa_by_label=op[3], taxon_mapping_memo=self.memos[op[4]])
+            return ["OUnit"]
+        if name == "ReconstructTreeM":
+            trees[op[1]].reconstruct_taxon_namespace(unify_taxa_by_label=op[2], taxon_mapping_memo=self.memos[op[3]])
+            return ["OUnit"]
+        if name == "MigrateListM":
+            lists[op[1]].migrate_taxon_namespace(nss[op[2]], unify_taxa_by_label=op[3], taxon_mapping_memo=self.memos[op[4]])
+            return ["OUnit"]
+        if name == "ReconstructListM":
+            lists[op[1]].reconstruct_taxon_namespace(unify_taxa_by_label=op[2], taxon_mapping_memo=self.memos[op[3]])
+            return ["OUnit"]
+        if name == "MigrateMatM":
+            mats[op[1]].migrate_taxon_namespace(nss[op[2]], unify_taxa_by_label=op[3], taxon_mapping_memo=self.memos[op[4]])
+            return ["OUnit"]
+        if name == "ReconstructMatM":
+            mats[op[1]].reconstruct_taxon_namespace(unify_taxa_by_label=op[2], taxon_mapping_memo=self.memos[op[3]])
+            return ["OUnit"]
         raise RuntimeError("unknown op %r" % (op,))
 
     def step(self, op):
@@ -447,7 +499,8 @@ def _holders(w, t):
     return [i for i, tl in enumerate(w.lists) if any(x is t for x in tl)]
 
 
-def gen_case(rng, maxlen, hazard=0.12):
+def gen_case(rng, maxlen, hazard=0.12, shape=None):
+    """shape: None (mixed), "copy" (shallow-copy scenario first), "memo" (caller-supplied memo scenario first)"""
     pool = sorted(set(rng.choice(POOLS)))
     w = World(pool)
     ops = []
@@ -485,10 +538,17 @@ def gen_case(rng, maxlen, hazard=0.12):
         emit(["NewMat", rng.randrange(nns)])
     if R() < 0.6:
         emit(["NewDs"])
-    if R() < 0.3:
+    x = R()
+    if shape == "copy" or (shape is None and x < 0.12):
+        _shallow_copy_scenario(rng, w, emit)
+    elif shape == "memo" or (shape is None and x < 0.26):
+        _memo_scenario(rng, w, emit)
+    elif shape is None and R() < 0.3:
         _shared_source_scenario(rng, w, emit)
-    elif R() < 0.2:
+    elif shape is None and R() < 0.2:
         _add_then_reconstruct_scenario(rng, w, emit)
+    if w.naive():
+        return {"pool": pool, "ops": ops}
 
     target = len(ops) + rng.randint(5, maxlen)
     guard = 0
@@ -582,6 +642,197 @@ def _shared_source_scenario(rng, w, emit):
         else:
             emit(["NewNs", False])
             emit(["Unify", d, len(w.nss) - 1, True])
+
+
+def _distinct_labels(rng, pool, variants):
+    """label ids in random order; unless `variants`, no two of them equal up to case (so that a migration into
+    a case-insensitive namespace does not run into the listed half-migrated-matrix finding all the time)"""
+    labs = list(range(len(pool)))
+    rng.shuffle(labs)
+    if variants:
+        return labs
+    out, seen = [], set()
+    for i in labs:
+        if pool[i].lower() not in seen:
+            seen.add(pool[i].lower())
+            out.append(i)
+    return out
+
+
+def _shallow_copy_scenario(rng, w, emit):
+    """a filled container, a SHALLOW copy of it (copy.copy / clone(0)), and then - maybe after a few other
+    steps - a namespace operation or a row / member operation on ONLY ONE of the two objects.  Every container
+    is re-observed after every step: the other object must not change (matrices), resp. may only see its tree
+    objects re-homed the way a slice does (tree lists: the documented shallowness, gated like GetSlice)."""
+    R = rng.random
+    pool = w.pool
+    how = lambda: rng.choice(["clone", "copy"])
+    emit(["NewNs", R() < 0.3])
+    n = len(w.nss) - 1
+    labs = _distinct_labels(rng, pool, R() < 0.2)
+    tids = []
+    for l in labs[:rng.randint(2, 4)]:
+        emit(["NewTaxon", n, l])
+        tids.append(len(w.taxa()) - 1)
+    if R() < 0.75:
+        emit(["NewMat", n])
+        m = len(w.mats) - 1
+        rows = [t for t in tids if R() < 0.85] or tids[:1]
+        rng.shuffle(rows)
+        for t in rows:
+            emit(["NewSeq", m, t])
+        in_ds = None
+        if R() < 0.35:
+            emit(["NewDs"])
+            in_ds = len(w.dss) - 1
+            emit(["DsAdd", in_ds, ["ObjMat", m], R() < 0.3])
+        emit(["CopyMat", m, how()])
+        c = len(w.mats) - 1
+        if R() < 0.25:
+            emit(["CopyMat", rng.choice([m, c]), how()])
+        for _ in range(rng.randint(1, 3)):
+            who = rng.choice([m, c, len(w.mats) - 1])
+            x = R()
+            if x < 0.45:
+                tgt = rng.randrange(len(w.nss))
+                if R() < 0.4:
+                    emit(["NewNs", R() < 0.3])
+                    tgt = len(w.nss) - 1
+                    for l in labs[:rng.randint(0, 3)]:
+                        alts = [i for i, q in enumerate(pool) if q.lower() == pool[l].lower()]
+                        emit(["NewTaxon", tgt, rng.choice(alts)])
+                M = w.mats[who]
+                if any(ds.attached_taxon_namespace is not None and any(y is M for y in ds.char_matrices) for ds in w.dss):
+                    continue
+                emit(["MigrateMat", who, tgt, R() < 0.8])
+            elif x < 0.55:
+                emit(["ReconstructMat", who, R() < 0.5])
+            elif x < 0.7 and in_ds is not None:
+                emit(["Unify", in_ds, None if R() < 0.6 else rng.randrange(len(w.nss)), True])
+            elif x < 0.85:
+                mem = [w.tid(t) for t in w.mats[who].taxon_namespace]
+                if mem:
+                    emit(["SetRow", who, ["KeyTaxon", rng.choice(mem)]])
+            else:
+                mem = [w.tid(t) for t in w.mats[who].taxon_namespace if t not in w.mats[who]._taxon_sequence_map]
+                if mem:
+                    emit(["NewSeq", who, rng.choice(mem)])
+            if w.naive():
+                return
+    else:
+        emit(["NewList", n])
+        l = len(w.lists) - 1
+        for _ in range(rng.randint(1, 3)):
+            sub = [t for t in tids if R() < 0.85] or tids[:1]
+            rng.shuffle(sub)
+            emit(["NewTreeIn", l, None, sub])
+        emit(["CopyList", l, how()])
+        c = len(w.lists) - 1
+        for _ in range(rng.randint(1, 3)):
+            who = rng.choice([l, c])
+            x = R()
+            if x < 0.3:
+                emit(["Pop", who, rng.choice([0, -1])])
+            elif x < 0.55:
+                sub = [t for t in tids if R() < 0.7] or tids[:1]
+                emit(["NewTreeIn", who, None, sub])
+            elif x < 0.75:
+                emit(["ReconstructList", who, R() < 0.7])
+            elif x < 0.9:
+                emit(["MigrateList", who, n, R() < 0.7])
+            else:
+                emit(["UpdateList", who])
+            if w.naive():
+                return
+
+
+def _memo_scenario(rng, w, emit):
+    """the documented keyword taxon_mapping_memo supplied by the CALLER: an explicit mapping whose target is a
+    Taxon of the caller's choosing (a free Taxon(label), or a member of some other namespace), and / or ONE memo
+    object handed to several calls that migrate into DIFFERENT namespaces (the second call finds the
+    counterparts the first one created, which are members of the first namespace only)"""
+    R = rng.random
+    pool = w.pool
+    emit(["NewNs", R() < 0.3])
+    s_ = len(w.nss) - 1
+    labs = _distinct_labels(rng, pool, R() < 0.2)
+    src = []
+    for l in labs[:rng.randint(2, 4)]:
+        emit(["NewTaxon", s_, l])
+        src.append(len(w.taxa()) - 1)
+    trs = []
+    for _ in range(rng.randint(2, 3)):
+        sub = [t for t in src if R() < 0.85] or src[:1]
+        rng.shuffle(sub)
+        emit(["MkTree", s_, sub])
+        trs.append(len(w.trees) - 1)
+    mat = None
+    if R() < 0.3:
+        emit(["NewMat", s_])
+        mat = len(w.mats) - 1
+        for t in src:
+            if R() < 0.8:
+                emit(["NewSeq", mat, t])
+    # the memo
+    pairs = []
+    if R() < 0.6:
+        keys = [t for t in src if R() < 0.5] or src[:1]
+        used = set()
+        for k in keys:
+            x = R()
+            if x < 0.5:
+                emit(["FreeTaxon", rng.randrange(len(pool))])
+                v = len(w.taxa()) - 1
+            else:
+                cand = [i for i in range(len(w.taxa())) if i not in used and i != k]
+                v = rng.choice(cand)
+            if mat is not None and v in used:
+                continue
+            used.add(v)
+            pairs.append([k, v])
+    emit(["NewMemo", pairs])
+    k = len(w.memos) - 1
+    # destinations: two or three namespaces, some with overlapping / case-variant labels
+    dests = []
+    for _ in range(rng.randint(1, 3)):
+        if R() < 0.7 or len(w.nss) < 2:
+            emit(["NewNs", R() < 0.3])
+            d = len(w.nss) - 1
+            for l in labs[:rng.randint(0, 3)]:
+                if R() < 0.6:
+                    alts = [i for i, q in enumerate(pool) if q.lower() == pool[l].lower()]
+                    emit(["NewTaxon", d, rng.choice(alts)])
+        else:
+            d = rng.randrange(len(w.nss))
+        dests.append(d)
+    free = list(trs)
+    for d in dests:
+        if w.naive():
+            return
+        x = R()
+        if x < 0.5 and free:
+            emit(["NewList", d])
+            l = len(w.lists) - 1
+            t = free.pop(0)
+            u = ["SMigrate", R() < 0.8]
+            if R() < 0.6:
+                emit(["AppendM", l, t, u, k])
+            else:
+                emit(["InsertM", l, rng.choice([0, 1, -1]), t, u, k])
+            if free and R() < 0.4:
+                emit(["AppendM", l, free.pop(0), ["SMigrate", True], k])
+        elif x < 0.75 and free:
+            emit(["MigrateTreeM", free.pop(0), d, R() < 0.8, k])
+        elif x < 0.85 and free:
+            emit(["NewList", s_])
+            l = len(w.lists) - 1
+            emit(["Append", l, free.pop(0), ["SMigrate", True]])
+            emit(["MigrateListM", l, d, R() < 0.8, k])
+        elif x < 0.92 and free:
+            emit(["ReconstructTreeM", free[0], R() < 0.7, k])
+        elif mat is not None:
+            emit(["MigrateMatM", mat, d, R() < 0.8, k])
+            mat = None
 
 
 def _add_then_reconstruct_scenario(rng, w, emit):
@@ -700,6 +951,56 @@ def _pick(rng, w, hazard):
         return specs
 
     hz = R() < hazard
+    # ---- wave 7: shallow copies, caller-owned memos ----
+    k7 = R()
+    if k7 < 0.02 and nM and nM < 5:
+        return ["CopyMat", rng.randrange(nM), rng.choice(["clone", "copy"])]
+    if k7 < 0.03 and nL and nL < 6 and (hz or R() < 0.3):
+        return ["CopyList", rng.randrange(nL), rng.choice(["clone", "copy"])]
+    if k7 < 0.04 and len(w.memos) < 2:
+        allt = list(range(len(w.taxa())))
+        pairs = []
+        if allt and R() < 0.6:
+            keys = rng.sample(allt, min(len(allt), rng.randint(1, 3)))
+            for q in keys:
+                v = rng.choice(allt)
+                if v != q:
+                    pairs.append([q, v])
+        return ["NewMemo", pairs]
+    if k7 < 0.05:
+        return ["FreeTaxon", L()]
+    if w.memos and k7 < 0.13:
+        km = rng.randrange(len(w.memos))
+        j = R()
+        if nL and j < 0.3:
+            l = rng.randrange(nL)
+            t = tree_for(l, hz)
+            if t is None:
+                return None
+            if R() < 0.6:
+                return ["AppendM", l, t, strat(), km]
+            return ["InsertM", l, rng.choice([0, 1, -1, -2, 3]), t, strat(), km]
+        if nT and j < 0.55:
+            t = rng.randrange(nT)
+            if _holders(w, w.trees[t]) and not hz:
+                return ["ReconstructTreeM", t, R() < 0.7, km]
+            return ["MigrateTreeM", t, NS(), R() < 0.8, km] if R() < 0.7 else ["ReconstructTreeM", t, R() < 0.7, km]
+        if nL and j < 0.8:
+            l = rng.randrange(nL)
+            tl = w.lists[l]
+            shared = any(len(_holders(w, t)) > 1 for t in tl)
+            in_attached = any(ds.attached_taxon_namespace is not None and any(x is tl for x in ds.tree_lists) for ds in w.dss)
+            if R() < 0.4 or ((shared or in_attached) and not hz):
+                return ["ReconstructListM", l, R() < 0.7, km]
+            return ["MigrateListM", l, NS(), R() < 0.8, km]
+        if nM:
+            m = rng.randrange(nM)
+            M = w.mats[m]
+            in_attached = any(ds.attached_taxon_namespace is not None and any(x is M for x in ds.char_matrices) for ds in w.dss)
+            if R() < 0.4 or (in_attached and not hz):
+                return ["ReconstructMatM", m, R() < 0.6, km]
+            return ["MigrateMatM", m, NS(), R() < 0.8, km]
+        return None
     k = R()
     if k < 0.04:
         return ["NewNs", R() < 0.3] if nN < 4 else None
@@ -913,10 +1214,55 @@ def observe(case):
 MOVERS = ("Append", "Insert", "Extend", "IAdd", "Add", "SetItem", "SetSlice", "GetSlice")
 
 
+# operations that take the caller's memo: name -> (the same call without the keyword, position of the memo id)
+MEMO_OPS = {"AppendM": ("Append", 4), "InsertM": ("Insert", 5), "MigrateTreeM": ("MigrateTree", 4),
+            "ReconstructTreeM": ("ReconstructTree", 3), "MigrateListM": ("MigrateList", 4),
+            "ReconstructListM": ("ReconstructList", 3), "MigrateMatM": ("MigrateMat", 4),
+            "ReconstructMatM": ("ReconstructMat", 3)}
+
+
+def _base_name(op):
+    return MEMO_OPS[op[0]][0] if op[0] in MEMO_OPS else op[0]
+
+
+def _memo_in(op, dump):
+    """the caller's memo as the call received it / left it (dump = state before / after the step): {source: target}"""
+    if op[0] not in MEMO_OPS or dump is None:
+        return {}
+    k = op[MEMO_OPS[op[0]][1]]
+    return dict((a, b) for a, b in dump["memos"][k]) if k < len(dump["memos"]) else {}
+
+
+def _offending(viol, dump):
+    """the taxa behind a closure violation: referenced by the member, not in the container's namespace"""
+    kind = viol[0]
+    if kind == "list-member-taxon":
+        n, members = dump["lists"][viol[1]]
+        refs = dump["trees"][members[viol[2]]][1]
+    elif kind == "tree-taxon":
+        n, refs = dump["trees"][viol[1]]
+    elif kind == "matrix-row":
+        n, refs = dump["mats"][viol[1]]
+    else:
+        return []
+    return [x for x in refs if x not in dump["ns"][n][1]]
+
+
 def _classify(case, step, op, viol, prev_dump, dump, out):
+    key = _classify_base(case, step, op, viol, prev_dump, dump, out)
+    if key.startswith("unexplained:") and op[0] in MEMO_OPS:
+        vals = set(_memo_in(op, dump).values())
+        bad = _offending(viol, dump)
+        if bad and all(x in vals for x in bad):
+            # the taxon the caller's memo supplied is on the nodes / rows, but was not added to the namespace
+            return "memo-supplied-taxon-not-in-namespace:" + op[0]
+    return key
+
+
+def _classify_base(case, step, op, viol, prev_dump, dump, out):
     """a stable, narrow key for a new violation of the closure property"""
     kind = viol[0]
-    name = op[0]
+    name = _base_name(op)      # the keyword does not change which object a call re-homes
     if out == ["ORecon"] and name in ("MigrateMat", "ReconstructMat", "Unify"):
         # the refused reconstruction left the matrix (and, inside unify_taxon_namespaces, the data set whose
         # lists were already moved) half-way
@@ -949,7 +1295,71 @@ def _classify(case, step, op, viol, prev_dump, dump, out):
                 return "shared-tree-rehomed-by-list-operation"
             if name in ("MigrateList", "MigrateTree", "Unify"):
                 return "shared-tree-rehomed-by-migration"
-    return "unexplained:%s:%s" % (kind, name)
+    return "unexplained:%s:%s" % (kind, op[0])
+
+
+def _storage_shared(op, dump):
+    """No two container objects share one mutable storage object (a matrix' _taxon_sequence_map, a tree list's
+    _trees): otherwise a later operation on one of them silently changes the other."""
+    for i, c in enumerate(dump["mmap"]):
+        if c != i:
+            return ("matrices %d and %d are different objects but hold one and the same _taxon_sequence_map dict"
+                    % (c, i), "matrix-storage-shared")
+    for i, c in enumerate(dump["ltl"]):
+        if c != i:
+            return ("tree lists %d and %d are different objects but hold one and the same _trees list" % (c, i),
+                    "tree-list-storage-shared")
+    return None
+
+
+def _consequence(case, obs, step):
+    """for the report only: the first later step at which the shared storage shows (another container changed,
+    or a container left with members outside its namespace)"""
+    seen = set(json.dumps(v) for v in obs[step]["naive"])
+    for j in range(step + 1, len(obs)):
+        op = case["ops"][j]
+        u = _frame(op, obs[j - 1]["dump"], obs[j]["dump"], obs[j - 1]["rows"], obs[j]["rows"])
+        if u:
+            return "; consequence at step %d %s: %s" % (j, op, u[0])
+        new = [v for v in obs[j]["naive"] if json.dumps(v) not in seen]
+        if new:
+            return "; consequence at step %d %s: %s" % (j, op, _describe(new[0]))
+    return ""
+
+
+LIST_TARGET = ("Append", "Insert", "Extend", "IAdd", "SetItem", "SetSlice", "NewTreeIn", "ReadList", "Pop", "Remove",
+               "MigrateList", "AppendM", "InsertM", "MigrateListM")
+MAT_TARGET = ("NewSeq", "SetRow", "MigrateMat", "ReconstructMat", "MigrateMatM", "ReconstructMatM")
+
+
+def _frame(op, before, after, rows_b, rows_a):
+    """An operation on one container changes no observation of another one: the (namespace, row taxa, cells) of
+    every matrix and the (namespace, member tree objects) of every tree list the step was not applied to are
+    what they were; a memo object changes only in a call it was handed to."""
+    name = op[0]
+    mats = [op[1]] if name in MAT_TARGET else (before["dss"][op[1]][3] if name == "Unify" else [])
+    for i, b in enumerate(before["mats"]):
+        if i in mats:
+            continue
+        if i >= len(after["mats"]) or after["mats"][i] != b or rows_a[i] != rows_b[i]:
+            return ("matrix %d was (namespace %d, rows %s) and is (namespace %s, rows %s) although the step was applied to %s"
+                    % (i, b[0], rows_b[i], after["mats"][i][0] if i < len(after["mats"]) else None,
+                       rows_a[i] if i < len(rows_a) else None, "matrix %s" % mats if mats else "no matrix"),
+                    "matrix-changed-by-operation-on-another-object")
+    lists = [op[1]] if name in LIST_TARGET else (before["dss"][op[1]][2] if name == "Unify" else [])
+    for i, b in enumerate(before["lists"]):
+        if i in lists:
+            continue
+        if i >= len(after["lists"]) or after["lists"][i] != b:
+            return ("tree list %d was %s and is %s although the step was applied to %s"
+                    % (i, b, after["lists"][i] if i < len(after["lists"]) else None,
+                       "list %s" % lists if lists else "no list"), "list-changed-by-operation-on-another-object")
+    mine = op[MEMO_OPS[name][1]] if name in MEMO_OPS else None
+    for i, b in enumerate(before["memos"]):
+        if i != mine and after["memos"][i] != b:
+            return ("memo %d changed from %s to %s in a call that was not handed it" % (i, b, after["memos"][i]),
+                    "memo-changed-by-other-operation")
+    return None
 
 
 def oracle(case, obs):
@@ -960,10 +1370,17 @@ def oracle(case, obs):
     prev_rows = []
     for step, (op, o) in enumerate(zip(case["ops"], obs)):
         dump = o["dump"]
+        u = _storage_shared(op, dump)
+        if u:
+            return ("after step %d %s: %s%s" % (step, op, u[0], _consequence(case, obs, step)), u[1] + ":" + op[0])
+        if prev_dump is not None:
+            u = _frame(op, prev_dump, dump, prev_rows, o["rows"])
+            if u:
+                return ("after step %d %s (outcome %s): %s" % (step, op, o["out"], u[0]), u[1] + ":" + op[0])
         # no operation of these histories deletes a sequence: every row present before the step is still
         # there (same cells, a label that differs at most in case), whatever taxon it is keyed by now;
         # only matrix[key] = values may replace the cells of one row
-        lost = _sequences_lost(op, prev_rows, o["rows"])
+        lost = _sequences_lost(op, prev_rows, o["rows"], relabel=bool(_memo_in(op, prev_dump)))
         if lost:
             return ("after step %d %s (outcome %s): %s" % (step, op, o["out"], lost), "matrix-sequence-lost:" + op[0])
         prev_rows = o["rows"]
@@ -1036,7 +1453,7 @@ def _list_unified(pool, op, after):
 
 def _by_label_route(op):
     """does the step create taxa only through a look-up by label (require_taxon / the readers' symbol map)?"""
-    name = op[0]
+    name = _base_name(op)
     if name in ("Extend", "IAdd", "Add", "SetItem", "SetSlice", "GetSlice", "ReadList", "DsReadTrees", "DsReadFasta", "Unify"):
         return True
     if name == "Append":
@@ -1057,12 +1474,13 @@ def _route_members(pool, op, before, after):
     if not _by_label_route(op):
         return None
     lab = after["lab"]
+    given = set(_memo_in(op, before).values())      # targets the caller's memo names: added as they are, not by label
     for n, (cs, members) in enumerate(after["ns"]):
         old = before["ns"][n][1] if n < len(before["ns"]) else []
-        fresh = [x for x in members if x not in old]
+        fresh = [x for x in members if x not in old and x not in given]
         keyf = (lambda x: pool[lab[x]]) if cs else (lambda x: pool[lab[x]].lower())
         for x in fresh:
-            twins = [y for y in members if y != x and keyf(y) == keyf(x)]
+            twins = [y for y in members if y != x and keyf(y) == keyf(x) and not (y in given and y not in old)]
             if twins:
                 return ("namespace %d (%s) gained taxon %r although it holds %r: equal labels now sit on different taxa"
                         % (n, "case-sensitive" if cs else "case-insensitive", pool[lab[x]], [pool[lab[y]] for y in twins]),
@@ -1103,7 +1521,9 @@ def _clone_label_map(pool, op, before, after):
     return None
 
 
-def _sequences_lost(op, before, after):
+def _sequences_lost(op, before, after, relabel=False):
+    """relabel: the step is a matrix migration under a caller-supplied mapping, which may file a row of that
+    matrix under a taxon with another label (the caller's choice)"""
     for i, rows_b in enumerate(before):
         rows_a = after[i] if i < len(after) else []
         left = [list(r) for r in rows_a]
@@ -1118,7 +1538,7 @@ def _sequences_lost(op, before, after):
                 missing.append([lab, seq])
                 continue
             left.remove(hit)
-            if hit[0].lower() != lab.lower():
+            if hit[0].lower() != lab.lower() and not (relabel and op[0] in ("MigrateMatM", "ReconstructMatM") and op[1] == i):
                 return "matrix %d: the sequence of %r is now filed under %r" % (i, lab, hit[0])
         allowed = 1 if (op[0] == "SetRow" and op[1] == i) else 0
         if len(missing) > allowed or len(rows_a) < len(rows_b):
@@ -1149,7 +1569,8 @@ def _describe(v):
 def _unification(pool, op, before, after):
     """Trees / matrices whose namespace changed in this step were migrated by label:
     nothing dropped, label-equal items on one taxon, label-different items on different taxa."""
-    name = op[0]
+    name = _base_name(op)
+    memo = _memo_in(op, before)
     lab = after["lab"]
     unify = True
     if name in ("MigrateList", "MigrateTree", "MigrateMat"):
@@ -1164,14 +1585,26 @@ def _unification(pool, op, before, after):
         unify = op[4][1]
     if name in ("UpdateList", "UpdateTree", "NewTreeIn", "MkTree"):
         return None
+    twice = set()
+    if op[0] in ("MigrateListM", "ReconstructListM"):
+        # a tree object the list holds twice is re-mapped twice in one call, the second time through whatever
+        # the caller's memo says about the counterparts of the first pass: no statement about it here
+        held = before["lists"][op[1]][1]
+        twice = set(t for t in held if held.count(t) > 1)
     for kind in ("trees", "mats"):
         for i, (b, a) in enumerate(zip(before[kind], after[kind])):
-            if b[0] == a[0]:
+            if b[0] == a[0] or (kind == "trees" and i in twice):
                 continue
             cs = after["ns"][a[0]][0]
             keyf = (lambda s: s) if cs else (lambda s: s.lower())
             br, ar = b[1], a[1]
             if kind == "mats":
+                for x in br:
+                    if x in memo and memo[x] not in ar and not (not unify and x in ar and x in after["ns"][a[0]][1]):
+                        return ("matrix %d: the caller's memo maps taxon #%d to #%d, but the row is not filed under it: %s -> %s"
+                                % (i, x, memo[x], br, ar), "memo-mapping-not-honoured")
+                if any(x in memo for x in br):
+                    continue
                 # rows are re-keyed in dict order: compare as label multisets and per-label targets
                 if sorted(keyf(pool[lab[x]]) for x in br) != sorted(keyf(pool[lab[x]]) for x in ar):
                     return ("matrix %d lost or gained a sequence label when migrated: %s -> %s"
@@ -1181,6 +1614,15 @@ def _unification(pool, op, before, after):
                 return ("tree %d has %d taxon references before and %d after the migration" % (i, len(br), len(ar)),
                         "migration-dropped")
             for x, y in zip(br, ar):
+                if x in memo:
+                    # "taxon to use is given by mapping": the node carries it, and it is a member now
+                    if y != memo[x] and not (not unify and y == x and x in after["ns"][a[0]][1]):
+                        return ("tree %d: the caller's memo maps taxon #%d to #%d, the node carries #%d" % (i, x, memo[x], y),
+                                "memo-mapping-not-honoured")
+                    if y not in after["ns"][a[0]][1]:
+                        return ("tree %d: taxon #%d %r supplied by the caller's memo is on a node but not a member of the "
+                                "target namespace %d" % (i, y, pool[lab[y]], a[0]), "memo-supplied-taxon-not-in-namespace")
+                    continue
                 if keyf(pool[lab[x]]) != keyf(pool[lab[y]]):
                     return ("tree %d: node taxon %r became %r" % (i, pool[lab[x]], pool[lab[y]]), "migration-relabelled")
                 if y not in after["ns"][a[0]][1]:
@@ -1188,6 +1630,8 @@ def _unification(pool, op, before, after):
                             "migration-not-member")
             for p in range(len(br)):
                 for q in range(p + 1, len(br)):
+                    if br[p] in memo or br[q] in memo:
+                        continue
                     same_key = keyf(pool[lab[br[p]]]) == keyf(pool[lab[br[q]]])
                     if unify and same_key and ar[p] != ar[q]:
                         return ("tree %d: two nodes with equal labels %r ended on different taxa" % (i, pool[lab[br[p]]]),
@@ -1225,7 +1669,32 @@ def c_oz(x):
     return copt(x, cz)
 
 
+def c_pairs(ps):
+    return clist([cpair(str(int(a)), str(int(b))) for a, b in ps])
+
+
 def c_op(op):
+    """a term of C11W7Model.op7"""
+    n = op[0]
+    if n == "FreeTaxon":
+        return "(FreeTaxon %d)" % op[1]
+    if n == "NewMemo":
+        return "(NewMemo %s)" % c_pairs(op[1])
+    if n in ("CopyMat", "CopyList"):
+        return "(%s %d)" % (n, op[1])
+    if n == "AppendM":
+        return "(AppendM %d %d %s %d)" % (op[1], op[2], c_strat(op[3]), op[4])
+    if n == "InsertM":
+        return "(InsertM %d %s %d %s %d)" % (op[1], cz(op[2]), op[3], c_strat(op[4]), op[5])
+    if n in ("MigrateTreeM", "MigrateListM", "MigrateMatM"):
+        return "(%s %d %d %s %d)" % (n, op[1], op[2], cbool(op[3]), op[4])
+    if n in ("ReconstructTreeM", "ReconstructListM", "ReconstructMatM"):
+        return "(%s %d %s %d)" % (n, op[1], cbool(op[2]), op[3])
+    return "(Base %s)" % c_op_base(op)
+
+
+def c_op_base(op):
+    """a term of C11Model.op"""
     n = op[0]
     if n == "NewNs":
         return "(NewNs %s)" % cbool(op[1])
@@ -1295,6 +1764,10 @@ def c_dump(d):
         clist(["(%s, %s, %s, %s)" % (c_on(x[0]), nl(x[1]), nl(x[2]), nl(x[3])) for x in d["dss"]]))
 
 
+def c_dump7(d):
+    return "(%s, %s, %s, %s)" % (c_dump(d), clist([c_pairs(m) for m in d["memos"]]), nl(d["mmap"]), nl(d["ltl"]))
+
+
 def lower_table(pool):
     low = {}
     pairs = []
@@ -1309,8 +1782,8 @@ def lower_table(pool):
 
 
 def to_coq(case, obs):
-    exp = clist([cpair(c_out(o["out"]), c_dump(o["dump"])) for o in obs])
-    return "(mkCase %s %s %s)" % (lower_table(case["pool"]), clist([c_op(o) for o in case["ops"]]), exp)
+    exp = clist([cpair(c_out(o["out"]), c_dump7(o["dump"])) for o in obs])
+    return "(mkCase7 %s %s %s)" % (lower_table(case["pool"]), clist([c_op(o) for o in case["ops"]]), exp)
 
 
 def nontrivial(case, obs):
@@ -1397,7 +1870,7 @@ def check_witnesses(ctx):
     ok = True
 
     def ops_text(ops):
-        return _norm(clist([c_op(o) for o in ops]))
+        return _norm(clist([c_op_base(o) for o in ops]))
 
     m = re.search(r"Definition ex_base : list op :=(.*?)\.\s*\n", src, re.S)
     ok &= bool(m) and _norm(m.group(1)) == ops_text(EX_BASE)
@@ -1405,13 +1878,13 @@ def check_witnesses(ctx):
     ok &= bool(m) and _norm(m.group(1)) == ops_text(EX_HISTORY)
     for name, prefix, last, _key in WITNESSES:
         m = re.search(r"Lemma %s :\s*let st := ex_state (\[.*?\]) in\s*let o := (.*?) in" % name, src, re.S)
-        good = bool(m) and _norm(m.group(1)) == ops_text(prefix) and _norm(m.group(2)) == _norm(c_op(last))
+        good = bool(m) and _norm(m.group(1)) == ops_text(prefix) and _norm(m.group(2)) == _norm(c_op_base(last))
         if not good:
             ctx.notes.append("witness %s of Proofs/C11Examples.v differs from the harness' copy" % name)
         ok &= good
     for name, prefix, last in SHARED_MEMO:
         m = re.search(r"Lemma %s :\s*let st := ex_state (\[.*?\]) in\s*let o := (.*?) in" % name, src, re.S)
-        good = bool(m) and _norm(m.group(1)) == ops_text(prefix) and _norm(m.group(2)) == _norm(c_op(last))
+        good = bool(m) and _norm(m.group(1)) == ops_text(prefix) and _norm(m.group(2)) == _norm(c_op_base(last))
         if not good:
             ctx.notes.append("witness %s of Proofs/C11Examples.v differs from the harness' copy" % name)
         ok &= good
@@ -1465,8 +1938,34 @@ def fixed_cases():
             ["DsReadTrees", 0, "Nexus", True, None, [[1, 4]], 2], ["DsNewList", 0, 0], ["DsNewMat", 0, None], ["Detach", 0], ["DsNewList", 0, None])
     for c in add_then_reconstruct_cases():
         yield c
+    for c in wave7_cases():
+        yield c
     yield H(["NewMat", 0], ["NewSeq", 0, 0], ["SetRow", 0, ["KeyLabel", 4]], ["SetRow", 0, ["KeyIndex", -1]], ["SetRow", 0, ["KeyTaxon", 2]],
             ["ReconstructMat", 0, True], ["ReconstructMat", 0, False], ["UpdateMat", 0], ["MigrateMat", 0, 1, False], ["MigrateMat", 0, 2, True], ["PurgeMat", 0])
+
+
+def wave7_cases():
+    """shallow copies followed by an operation on only one of the two objects; caller-supplied memos (explicit
+    mapping to a free Taxon / to a member of another namespace; one memo handed to calls that migrate into
+    different namespaces).  On EX_BASE: taxa 0 A, 1 B (ns0), 2 a, 3 C (ns1), 4 A, 5 a (case-sensitive ns2);
+    tree 1 of ns1 carries a, C."""
+    H = lambda *ops: {"pool": P6, "ops": EX_BASE + [list(o) for o in ops]}
+    # seeded/C11-7 demo: the copy is migrated, the original must stay; then the original is unified
+    yield H(["NewMat", 0], ["NewSeq", 0, 0], ["NewSeq", 0, 1], ["CopyMat", 0, "clone"], ["MigrateMat", 1, 1, True],
+            ["CopyMat", 0, "copy"], ["NewDs"], ["DsAdd", 0, ["ObjMat", 0], False], ["Unify", 0, None, True],
+            ["SetRow", 2, ["KeyLabel", 4]], ["ReconstructMat", 2, False], ["NewSeq", 1, 3])
+    yield H(["Append", 0, 0, M1], ["CopyList", 0, "clone"], ["Pop", 3, 0], ["NewTreeIn", 0, None, [0]],
+            ["ReconstructList", 3, True], ["CopyList", 0, "copy"], ["UpdateList", 4], ["Remove", 0, 0])
+    # seeded/C11-8 demo, scenario 1: explicit mapping to a Taxon of the caller's choosing
+    yield H(["FreeTaxon", 2], ["NewMemo", [[2, 6]]], ["AppendM", 0, 1, M1, 0], ["MkTree", 1, [3, 2]],
+            ["InsertM", 0, 0, 4, M1, 0], ["MkTree", 1, [2]], ["MigrateTreeM", 5, 2, False, 0])
+    # scenario 2: one memo carried across collections / namespaces
+    yield H(["NewMemo", []], ["AppendM", 0, 1, M1, 0], ["MkTree", 1, [3, 2]], ["AppendM", 2, 4, M1, 0],
+            ["MkTree", 1, [2, 3, 2]], ["NewNs", False], ["MigrateTreeM", 5, 3, True, 0], ["ReconstructTreeM", 5, True, 0],
+            ["NewList", 1], ["MkTree", 1, [2]], ["Append", 3, 6, M1], ["MigrateListM", 3, 3, False, 0], ["ReconstructListM", 3, True, 0])
+    yield H(["NewMat", 1], ["NewSeq", 0, 2], ["NewSeq", 0, 3], ["NewMemo", [[2, 1]]], ["MigrateMatM", 0, 0, True, 0],
+            ["NewMemo", [[1, 4], [6, 5]]], ["ReconstructMatM", 0, True, 1], ["MigrateMatM", 0, 2, False, 1],
+            ["AppendM", 0, 1, ["SAdd"], 0], ["InsertM", 0, 0, 2, ["SBogus"], 0])
 
 
 def add_then_reconstruct_cases():
@@ -1521,9 +2020,9 @@ def search(ctx, budget_s):
     t0 = time.time()
     rng = random.Random(ctx.seed + 4711)
     n = 0
-    first = list(add_then_reconstruct_cases())
+    first = list(wave7_cases()) + list(add_then_reconstruct_cases())
     while time.time() - t0 < budget_s and n < 20000:
-        case = first[n] if n < len(first) else gen_case(rng, 20)
+        case = first[n] if n < len(first) else gen_case(rng, 20, shape=(None, "copy", "memo", None)[n % 4])
         obs = observe(case)
         v = oracle(case, obs)
         n += 1
@@ -1542,22 +2041,24 @@ def proof_stage_tied(ctx):
     are compiled again in a private directory against this run's translation (fail closed)."""
     import os
     try:
-        from dv import gen_containers
-        want = gen_containers.generate(core.REPO)
+        from dv import gen_containers, gen_containers_copy_obj
+        want = {"Containers.v": gen_containers.generate(core.REPO),
+                "ContainersCopyObj.v": gen_containers_copy_obj.generate(core.REPO)}
     except Exception:
         want = None                       # proof_stage records the failed generation itself
-    path = os.path.join(core.COQ, "Gen", "Containers.v")
     n_ob, n_notes = len(ctx.obligations), len(ctx.notes)
     ok = core.proof_stage(ctx, ["Props/C11.vo"], gen_needed=("Containers",))
-    try:
-        have = open(path).read()
-    except OSError:
-        have = None
+    have = {}
+    for fn in (want or {}):
+        try:
+            have[fn] = open(os.path.join(core.COQ, "Gen", fn)).read()
+        except OSError:
+            have[fn] = None
     if want is None or have == want:
         return ok
     del ctx.obligations[n_ob:]
     del ctx.notes[n_notes:]
-    ctx.notes.append("coq/Gen/Containers.v was overwritten by a concurrent check of another source tree: "
+    ctx.notes.append("coq/Gen/Containers.v / ContainersCopyObj.v was overwritten by a concurrent check of another source tree: "
                      "private build against this run's translation")
     return private_gen_build(ctx, want)
 
@@ -1571,7 +2072,7 @@ def private_gen_build(ctx, want):
     os.makedirs("/var/tmp/dv-c11", exist_ok=True)
     d = tempfile.mkdtemp(prefix="genbuild-", dir="/var/tmp/dv-c11")
     try:
-        mine = lambda sub, fn: (sub == "Gen" and fn.startswith("Containers.")) \
+        mine = lambda sub, fn: (sub == "Gen" and fn.split(".")[0] in ("Containers", "ContainersCopyObj")) \
             or (sub == "Proofs" and fn.startswith("C11Gen")) or (sub == "Props" and fn.startswith("C11."))
         for sub in ("Gen", "Model", "Proofs", "Props"):
             os.makedirs(os.path.join(d, sub))
@@ -1582,9 +2083,11 @@ def private_gen_build(ctx, want):
                         shutil.copy(os.path.join(src, fn), os.path.join(d, sub, fn))
                     continue
                 os.symlink(os.path.join(src, fn), os.path.join(d, sub, fn))
-        with open(os.path.join(d, "Gen", "Containers.v"), "w") as f:
-            f.write(want)
-        order = ["Gen/Containers.v"] + ["Proofs/C11Gen%s.v" % c for c in "ABCDEFGH"] + ["Props/C11.v"]
+        for fn, text in want.items():
+            with open(os.path.join(d, "Gen", fn), "w") as f:
+                f.write(text)
+        order = ["Gen/Containers.v", "Gen/ContainersCopyObj.v"] + ["Proofs/C11Gen%s.v" % c for c in "ABCDEFGH"] \
+            + ["Proofs/C11GenCopyObj.v", "Props/C11.v"]
         good = True
         for rel in order:
             rc, out = core.sh("timeout 600 coqc -Q . DV -w none %s" % rel, cwd=d, timeout=630)
@@ -1609,6 +2112,11 @@ def run(tier, seed, replay=None):
         "(Props/C11.v gen_*); trusted there: the primitives of coq/Model/C11Prims.v and the parameter types in SPECS",
         "all namespaces are mutable; labels are ids into a finite pool and never re-assigned; str.lower is an "
         "uninterpreted function in the theorems",
+        "wave 7: coq/Model/C11W7Model.v extends the history language (Base op | FreeTaxon | NewMemo | CopyMat | CopyList | "
+        "8 operations with taxon_mapping_memo=<memo object>); the object-level matrix model coq/Model/C11ObjModel.v is tied "
+        "to the source by the translator py/dv/gen_containers_copy_obj.py -> coq/Gen/ContainersCopyObj.v (CharacterMatrix.__copy__; "
+        "trusted: coq/Model/C11ObjPrims.v) and to the value level by Props/C11.v object_level_refines_value_level; the "
+        "harness observes id() classes of the storage objects to tie the value-level run to the live objects",
         "matrix cells are not modelled: the oracle follows every sequence by its (unique) content across re-keying",
         "reads: the readers are represented by their label look-up (symbol mapper: last matching member, FASTA: "
         "require_taxon) on Newick / TREES-only NEXUS / FASTA sources without numeric labels",
@@ -1637,8 +2145,8 @@ def run(tier, seed, replay=None):
     for c in cases:
         for o in c["ops"]:
             ctx.count(o[0])
-    core.corr_stage(ctx, cases, observe, to_coq, HEADER, "case_ok", oracle=oracle,
-                    show_fn="case_run", nontrivial=nontrivial, search=search, shard=48 if tier == "quick" else 160,
+    core.corr_stage(ctx, cases, observe, to_coq, HEADER, "case_ok7", oracle=oracle,
+                    show_fn="case_run7", nontrivial=nontrivial, search=search, shard=48 if tier == "quick" else 160,
                     sample_fn=lambda c, o: {"ops": c["ops"][-6:], "pool": c["pool"], "last": o[-1]["dump"] if o else None})
     return ctx.finish(level="proof",
                       rule="operation histories generated online against the live library (set-up of 2-3 namespaces with "
@@ -1648,6 +2156,12 @@ def run(tier, seed, replay=None):
                            "append(tree with equal labels, taxon_import_strategy='add') ; reconstruct_taxon_namespace(unify) / "
                            "migrate_taxon_namespace(own namespace) / DataSet.unify_taxon_namespaces(namespace of the list), after "
                            "which equal labels must sit on one Taxon over all trees of the list; "
-                           "plus 26 fixed histories (the witnesses of the `_refuted` theorems, the non-vacuity history, one history per group of call sites) for the call sites named in the property; thorough adds every history of length <= 2 over a 53-op alphabet on a prepared state (cut at the first violating step); non-trivial = >= 6 steps, >= 2 "
+                           "a quarter of the set-ups start with a wave-7 scenario: (copy) a filled matrix / tree list, its shallow copy "
+                           "(copy.copy / clone(0)), then namespace / row / member operations on only one of the two; (memo) a "
+                           "caller-owned taxon_mapping_memo (explicit mapping to a free Taxon or to a member of another namespace, "
+                           "or empty) handed to append / insert / Tree-, TreeList-, CharacterMatrix-.migrate / reconstruct calls "
+                           "into up to three DIFFERENT namespaces; every container, every memo and the identity classes of the "
+                           "_taxon_sequence_map dicts / _trees lists are re-observed after every step; "
+                           "plus 31 fixed histories (the witnesses of the `_refuted` theorems, the non-vacuity history, one history per group of call sites) for the call sites named in the property; thorough adds every history of length <= 2 over a 53-op alphabet on a prepared state (cut at the first violating step); non-trivial = >= 6 steps, >= 2 "
                            "namespaces and at least one step that re-mapped or cloned a tree / matrix into a namespace; "
                            "distinct by full case content")
